@@ -218,7 +218,15 @@ func (s *engSession) restart() {
 }
 
 func (s *engSession) fail(prop, sig, what string) {
-	if len(s.fails) < 6 {
+	// at most six per property (monitors of other properties also run in every session and must not
+	// use up the room of the property under check)
+	n := 0
+	for _, f := range s.fails {
+		if f.Property == prop {
+			n++
+		}
+	}
+	if n < 6 {
 		cp := make([]eOp, len(s.ops))
 		copy(cp, s.ops)
 		s.fails = append(s.fails, MonitorFailure{Property: prop, Signature: sig, What: what, Replay: cp})
